@@ -369,7 +369,7 @@ let c12 (rest : string) : string =
       | ["pe"; _] -> Lifecycle.EPIllegal Lifecycle.IEndUnmapped
       | ["pf"; _] -> Lifecycle.EPIllegal Lifecycle.IFrameUnmapped
       | ["pz"] -> Lifecycle.EPEmpty | ["eof"] -> Lifecycle.EEof
-      | ["close"] -> Lifecycle.EClose | ["closee"] -> Lifecycle.ECloseErr | ["drop"] -> Lifecycle.EDrop
+      | ["close"] -> Lifecycle.EClose | ["closee"] -> Lifecycle.ECloseErr | ["drop"] -> Lifecycle.EDrop | ["abort"] -> Lifecycle.EAbort
       | _ -> failwith ("c12: bad event " ^ e) in
     (* a second open frame is the IOpenAgain violation only once the connection is open *)
     let ev = match ev, s with
